@@ -53,6 +53,8 @@ SHAPES = {
     "gendep": {"targets": {"T1": T(srcs=["s1"], gens=["g1"]), "T2": T(deps=["T1"]), "T3": T(deps=["T2"], srcs=["g1"])}, "sources": ["s1", "g1"]},
     # names with characters that are special in URLs and file names
     "plus": {"targets": {"T1": T(srcs=["a+b"], pkg="c++"), "T2": T(deps=["T1"], srcs=["x y"], pkg="p q"), "T3": T(deps=["T2"])}, "sources": ["a+b", "x y"]},
+    # an edge is added (see RESHAPE): T3 also depends on T1
+    "addedge": {"targets": {"T1": T(srcs=["s1"]), "T2": T(srcs=["s2"]), "T3": T(deps=["T2"])}, "sources": ["s1", "s2"]},
     # an edge disappears (see RESHAPE): T2 no longer depends on T1
     "unwire": {"targets": {"T1": T(srcs=["s1"]), "T2": T(deps=["T1"], srcs=["s2"])}, "sources": ["s1", "s2"]},
     # names that are string prefixes of one another; T1 and source r go away (see RESHAPE)
@@ -76,6 +78,7 @@ RESHAPE = {
     "chain3": {"targets": {"T1": T(srcs=["s1"]), "T2": T(deps=["T1"])}, "sources": ["s1"]},
     "rewire": {"targets": {"T1": T(srcs=["s1"]), "T2": T(srcs=["s2"]), "T3": T(deps=["T1"])}, "sources": ["s1", "s2"]},
     "unwire": {"targets": {"T1": T(srcs=["s1"]), "T2": T(deps=[], srcs=["s2"])}, "sources": ["s1", "s2"]},
+    "addedge": {"targets": {"T1": T(srcs=["s1"]), "T2": T(srcs=["s2"]), "T3": T(deps=["T2", "T1"])}, "sources": ["s1", "s2"]},
     "prefix": {"targets": {"T1x": T(srcs=["r.txt.x"]), "T2": T(deps=["T1x"])}, "sources": ["r.txt.x"]}}
 
 
@@ -370,6 +373,9 @@ def harness_cases(tier, sd):
     # a dependency edge moves; afterwards only the new dependency's inputs matter
     add("part", "rewire", [B("T3"), B("T1"), {"op": "reshape"}, B("T3"), {"op": "edit_src", "s": "s1"}, B("T3"), B("T3")])
     add("part", "rewire", [B("T3"), B("T1"), {"op": "reshape"}, B("T3"), {"op": "edit_src", "s": "s2"}, B("T3"), {"op": "edit_src", "s": "s1"}, B("T1"), B("T3")])
+    # an edge is added to a target whose new dependency was built after the target last ran
+    add("part", "addedge", [B("T3"), B("T1"), {"op": "reshape"}, B("T3"), B("T3")])
+    add("part", "addedge", [B("T3"), {"op": "reshape"}, B("T1"), {"op": "edit_src", "s": "s1"}, B("T1"), B("T3"), B("T3")])
     # an edge is removed from an up-to-date target, then a dry run: nothing may be written
     # (the harness bodies read their declared dependencies' outputs, so a from-scratch build of the
     # unwired tree is not comparable: clean=False)
